@@ -71,3 +71,16 @@ package conn
 //@   ensures Z(len(head)) == Z(len(in)) + Z(n) && len(tail) == n
 //@   ensures sameslice(tail, head[len(in):])
 //@   ensures forall(func(j int) bool { return implies(0 <= j && j < len(in), head[j] == old(in[j])) })
+
+// ---- C52: reading a record ------------------------------------------------------------
+//
+// A record is decrypted directly into the caller's buffer only when that buffer
+// can hold the whole ciphertext (the AEAD opens in place: its output never
+// exceeds the ciphertext), so Read never reports more bytes than the buffer
+// holds; otherwise the record is decrypted into the connection's own buffer
+// and handed out piecewise. The frame given to the decrypter is the complete
+// framed message without its 4-byte length and 4-byte type fields.
+//@ func (*conn).ReadOnReady
+//@   prop C52
+//@   assert at call Decrypt#1 bufSize >= len(ciphertext) && len(arg0) == 0
+//@   assert at call Decrypt#1 len(msg) >= msgTypeFieldSize && sameslice(arg1, msg[msgTypeFieldSize:]) && sameslice(msg, framedMsg[MsgLenFieldSize:])
